@@ -39,7 +39,7 @@ def parseRes (s : String) : Option Res :=
   else if s == "hang" then some .hang else none
 
 def showRes : Res → String
-  | .ok => "ok" | .eof => "eof" | .finalised => "fin" | .panic => "panic" | .hang => "hang"
+  | .ok => "ok" | .eof => "eof" | .finalised => "fin" | .panic => "panic" | .hang => "hang" | .ioerr => "err"
 
 /-- one implementation token; an unknown result kind (an I/O error) gives `none` -/
 def parseOut (s : String) : Option Out :=
